@@ -10,6 +10,9 @@
 (*                       a into b without a disabled step                  *)
 (*   get_agrees          get(p) finds exactly the reported paths, with the *)
 (*                       same status                                       *)
+(*   annotate_exact      annotate(dir) (dir holds the new snapshot) lists  *)
+(*                       the diff nodes first, in nodes() order, then every *)
+(*                       other existing path with no node                  *)
 (***************************************************************************)
 EXTENDS DirDiff, Json, IOUtils
 
@@ -29,6 +32,13 @@ Clauses(e) ==
     (IF got # R \/ Len(e.nodes) # Cardinality(got) THEN {"reported_exact"} ELSE {})
     \cup (IF e.is_empty # (a = b) THEN {"empty_iff_equal"} ELSE {})
     \cup (IF got = R /\ ~Transforms(a, b, order) THEN {"order_safe"} ELSE {})
+    \cup (IF e.hasann /\
+             (\/ {x.p : x \in SeqToSet(e.ann)} # {r.p : r \in R} \cup (Paths(b) \ {<<>>})
+              \/ \E x \in SeqToSet(e.ann) : x.node # (x.p \in {r.p : r \in R})
+              \/ Len(e.ann) # Cardinality({x.p : x \in SeqToSet(e.ann)})
+              \/ SelectSeq([j \in DOMAIN e.ann |-> e.ann[j].p], LAMBDA q : q \in {r.p : r \in R}) # order
+              \/ \E j, k \in DOMAIN e.ann : j < k /\ ~e.ann[j].node /\ e.ann[k].node)
+          THEN {"annotate_exact"} ELSE {})
     \cup (IF \E g \in SeqToSet(e.gets) :
                \/ g.found # (g.p \in {r.p : r \in R})
                \/ (g.found /\ \E r \in R : r.p = g.p /\ r.st # g.st)
